@@ -38,6 +38,11 @@ def run(chk, tier):
     for feats in (facts.CONFIGS["default"], ["std", "docs"]):
         prog = mir.Program(facts.load_mir(feats))
         c17.transitions(chk, prog, prog.config, "docs" in feats)
+        # what the derive hands to the builders reaches the definition: members are pushed in order, PhantomData members (and only those, by type
+        # identity) are dropped, for composites and for enum variants alike
+        c17.finalisers(chk, prog, prog.config)
+        c17.accumulation(chk, prog, prog.config)
+        c17.phantom(chk, prog, prog.config)
         c18.constructors(chk, prog, prog.config)
     chk.trusted += ["rustc passes the declaration's tokens to the derive unchanged", "syn (both in the derive and in the mirror)"]
 
